@@ -123,12 +123,15 @@ pub fn replay(args: &Args, s: &mut Summary) {
         let inp = &c["inp"];
         let timing: Vec<Value> = table[geti(inp, "timing") as usize - 1].as_array().unwrap().clone();
         let mut want: Vec<Value> = geta(&c, "out").clone();
+        // the code's reading where the statement's differs (MapPost!PostW: a hold note after a break)
+        let mut want_w: Vec<Value> = c.get("outw").and_then(|x| x.as_array()).cloned().unwrap_or_else(|| want.clone());
         // spinners have a fixed position: their id is not observable
-        for w in want.iter_mut() {
+        for w in want.iter_mut().chain(want_w.iter_mut()) {
             if w["k"] == "spinner" {
                 w["id"] = json!(-1);
             }
         }
+        let hold_differs = want.iter().zip(want_w.iter()).any(|(a, b)| a != b && a["k"] == "hold");
         if want.iter().any(|w| w["k"] == "slider") || !geta(inp, "breaks").is_empty() {
             s.nontrivial_key(&inp.to_string());
         }
@@ -147,7 +150,17 @@ pub fn replay(args: &Args, s: &mut Summary) {
                         w["t"] = json!(geti(&w, "t") + k);
                         w
                     }).collect();
+                    let shifted_want_w: Vec<Value> = want_w.iter().map(|w| {
+                        let mut w = w.clone();
+                        w["t"] = json!(geti(&w, "t") + k);
+                        w
+                    }).collect();
                     for (name, got) in [("HitObjects", &h), ("Beatmap", &b)] {
+                        if *got != shifted_want && hold_differs && *got == shifted_want_w {
+                            // exactly the code's reading: the listed finding, nothing else
+                            s.mismatch("hold-after-break-starts-no-combo", json!({"via": name, "text": text}));
+                            break;
+                        }
                         if *got != shifted_want {
                             let idx = got.iter().zip(shifted_want.iter()).position(|(a, b)| a != b).unwrap_or(0);
                             let field = shifted_want.get(idx).and_then(|w| w.as_object()).and_then(|w| w.iter().find(|(kk, v)| got.get(idx).and_then(|g| g.get(*kk)) != Some(*v)).map(|(kk, _)| kk.clone())).unwrap_or_else(|| "count".into());
